@@ -3,6 +3,7 @@ package core
 import (
 	"errors"
 	"fmt"
+	"sort"
 	"strings"
 
 	jschema "github.com/jsightapi/jsight-schema-go-library"
@@ -172,12 +173,12 @@ func (*JApiCore) getPropertiesNames(pp map[string]*catalog.SchemaContentJSight) 
 		return ""
 	}
 
-	buf := strings.Builder{}
+	names := make([]string, 0, len(pp))
 	for k := range pp {
-		buf.WriteString(k)
-		buf.WriteString(", ")
+		names = append(names, k)
 	}
-	return strings.TrimSuffix(buf.String(), ", ")
+	sort.Strings(names)
+	return strings.Join(names, ", ")
 }
 
 func (core *JApiCore) ProcessAllOf() *jerr.JApiError {
